@@ -62,7 +62,7 @@ func c10order(c *Check, rng *rand.Rand, password string) {
 			c.Violate(Violation{Class: "proxy-died", Shape: "order-workload", Detail: env.P.PanicLine(), Witness: env.P.OutputTail(2000)})
 			return
 		}
-		env.Cl.ResetLog()
+		env.Cl.ForgetRequests()
 		if password != "" {
 			for _, n := range env.Cl.Nodes {
 				n.KillConns()
@@ -223,6 +223,7 @@ func c10backpressure(c *Check, rng *rand.Rand) {
 			c.Violate(Violation{Class: "proxy-died", Shape: "backpressure", Detail: env.P.PanicLine(), Witness: env.P.OutputTail(2000)})
 			return
 		}
+		env.Cl.ForgetRequests() // the drain test and the oracle below look at this episode only
 		victim := env.Cl.Nodes[rng.Intn(3)]
 		slots := env.T.Nodes[victim.Index].Slots[0]
 		victim.SetPauseRead(true)
@@ -349,6 +350,7 @@ func c10moved(c *Check, rng *rand.Rand) {
 			c.Violate(Violation{Class: "proxy-died", Shape: "moved-slot-pipeline", Detail: env.P.PanicLine(), Witness: env.P.OutputTail(2000)})
 			return
 		}
+		env.Cl.ForgetRequests()
 		slot := rng.Intn(16384)
 		owner := env.T.Owner(slot).Node
 		var target *Node
